@@ -327,7 +327,7 @@ func ZZC01Shadow() {
 const c01SrcEdge = `package d
 
 //«annT»
-// @constructor NewT, Init, Setup
+// @constructor NewT, Init, Setup, Build
 type T struct {
 	N  int
 	Xs []int
@@ -347,11 +347,30 @@ type OuterP struct {
 	*T
 }
 
+// two levels, the OUTER one by pointer
+type Mid struct {
+	T
+}
+
+type Outer2 struct {
+	*Mid
+}
+
 func (i *I) Add() {
 	*i += 1 // E-RECV-COMPOUND
 	(*i)++ // E-RECV-PAREN-INC
 	(*i) = 3 // E-RECV-PAREN-SET
 	*(i) = 4 // E-RECV-INNER-PAREN
+}
+
+// a listed constructor method with an UNNAMED receiver spelled through the alias
+func (*TA) Build(o *T) {
+	o.N = 1 // E-UNNAMED-ALIAS-RECV-CTOR
+}
+
+func TwoLevels(o2 Outer2) {
+	o2.N = 1 // E-PROMOTED-2LEVEL-PTR
+	o2.Xs[0] = 2 // E-PROMOTED-2LEVEL-PTR-INDEX
 }
 
 func Edge(p *T, o *Outer, op OuterP) {
@@ -452,6 +471,9 @@ func ZZC01Edge() {
 		{f, nd.LineOf(src, "E-PROMOTED-INC"), "IMM03", immT},
 		{f, nd.LineOf(src, "E-PROMOTED-COMPOUND"), "IMM02", immT},
 		{f, nd.LineOf(src, "E-PROMOTED-PTR"), "IMM01", immT},
+		{f, nd.LineOf(src, "E-PROMOTED-2LEVEL-PTR"), "IMM01", immT},
+		{f, nd.LineOf(src, "E-PROMOTED-2LEVEL-PTR-INDEX"), "IMM04", immT},
+		// E-UNNAMED-ALIAS-RECV-CTOR: nothing (Build is a listed constructor method of T)
 		// one @mutable doc above a field declaration with several names covers every name
 		{f, nd.LineOf(src, "E-MUT-FIRST-NAME"), "IMM01", nd.And(immT, nd.Not(nd.HasPrefix(mutAB, " @mutable")))},
 		{f, nd.LineOf(src, "E-MUT-SECOND-NAME"), "IMM01", nd.And(immT, nd.Not(nd.HasPrefix(mutAB, " @mutable")))},
